@@ -56,6 +56,12 @@ var impls = map[string]func(string) string{
 	"proto.serve":     implProtoServe,
 	"proto.client":    implProtoClient,
 	"proto.session":   implProtoSession,
+	"s3.store":        implS3Store,
+	"s3.get":          implS3Get,
+	"s3.has":          implS3Has,
+	"sftp.store":      implSftpStore,
+	"sftp.get":        implSftpGet,
+	"sftp.has":        implSftpHas,
 }
 
 type replayFile struct {
